@@ -27,11 +27,14 @@ M64 = (1 << 64) - 1
 TARGETS = ["x86_64-sysv", "aarch64", "riscv64"]
 CHAR_SIGNED = {"x86_64-sysv": True, "aarch64": False, "riscv64": False}
 
-FID_BOOL = "fold-bool-cast"
-FID_SWAP = "fold-addr-swap-segv"
-FID_I2F = "fold-int-float-double-rounding"
-FID_CONDF = "fold-cond-float-unfolded"
-FID_LITOVF = "literal-overflow-saturates"
+# defects found by this property and repaired in /repo (known_findings.json, status "fixed"):
+# fold-bool-cast 7c8b86a, fold-addr-swap-segv 536afbc, fold-int-float-double-rounding 0457315,
+# fold-cond-float-unfolded b66d549, literal-overflow-saturates 23c06f0.  Their witnesses are part
+# of the probe sets below; a regression is an ordinary VIOLATION.
+
+
+FID_FLIT = "float-literal-not-rounded"
+QUIRK = set()   # alternative semantics describing a recorded deviation ("flit": 0.1f keeps its double value)
 
 
 class UB(Exception):
@@ -92,13 +95,10 @@ def in_range(t, targ, v):
     return lo <= v <= hi
 
 
-QUIRK = set()     # alternative semantics describing known deviations of eval.c ("bool", "i2f")
-
-
 def wrap(t, targ, v):
     b, s = bits_of(t), signed_of(t, targ)
     if b == 1:
-        return v & 0xff if "bool" in QUIRK else int(v != 0)
+        return int(v != 0)
     v &= (1 << b) - 1
     if s and v >> (b - 1):
         v -= 1 << b
@@ -279,25 +279,21 @@ def clit(v):
 
 def conv_value(v, tfrom, tto, targ):
     """value conversion (6.3.1.x) between arithmetic types; raises UB."""
+    if tfrom == tto and is_flt(tto):
+        return v
     if is_int(tto):
         if is_flt(tfrom):
             if math.isnan(v) or math.isinf(v):
                 raise UB("nan/inf to int")
-            if tto == "_Bool" and "bool" not in QUIRK:
+            if tto == "_Bool":
                 return int(v != 0)
             i = int(v)          # truncation toward zero
-            if tto == "_Bool":
-                if not 0 <= i < 2**64:
-                    raise UB("float out of range")
-                return i & 0xff
             if not in_range(tto, targ, i):
                 raise UB("float out of range of integer type")
             return i
         return wrap(tto, targ, v)
     if is_int(tfrom):
-        if tto == "float":
-            return f32(float(v)) if "i2f" in QUIRK else int_to_f32(v)
-        return float(v)
+        return int_to_f32(v) if tto == "float" else float(v)
     return f32(v) if tto == "float" else v
 
 
@@ -306,19 +302,21 @@ class Node:
 
 
 class Lit(Node):
-    def __init__(self, text, value, tname):
+    def __init__(self, text, value, tname, raw=None):
         self.text, self.value, self.tname = text, value, tname
+        self.raw = value if raw is None else raw     # what strtod() returned (float literals)
 
     def c(self):
         return self.text
 
     def ev(self, targ):
-        return self.tname, self.value
+        return self.tname, (self.raw if "flit" in QUIRK else self.value)
 
     def sx(self, targ):
         t = self.tname
         if is_flt(t):
-            return t, "(c %s %d)" % (mty(t, targ), dbits(self.value))
+            # the model is given what primaryexpr stores: strtod()'s double, also for an `f` suffix
+            return t, "(c %s %d)" % (mty(t, targ), dbits(self.raw))
         return t, "(c %s %d)" % (mty(t, targ), self.value & M64)
 
 
@@ -640,42 +638,6 @@ class Probe:
         self.e, self.dest, self.kind, self.storage, self.tag = e, dest, kind, storage, tag
 
 
-def is_bool_class(e):
-    """does the expression convert a constant to _Bool (finding fold-bool-cast)?"""
-    if isinstance(e, Cast):
-        return e.tname == "_Bool" or is_bool_class(e.e)
-    if isinstance(e, Un):
-        return is_bool_class(e.e)
-    if isinstance(e, Bin):
-        return is_bool_class(e.l) or is_bool_class(e.r)
-    if isinstance(e, Cond):
-        return is_bool_class(e.cnd) or is_bool_class(e.l) or is_bool_class(e.r)
-    return False
-
-
-def quirk_obs(e, dest, targ, quirk):
-    """what the expression gives under the alternative semantics `quirk`: an observation,
-    ('rejected', ...) when it becomes undefined there, or None when the quirk changes nothing."""
-    QUIRK.add(quirk)
-    try:
-        t, v = e.ev(targ)
-        return expect_obs(dest, conv_value(v, t, dest, targ), targ)
-    except UB:
-        return ("rejected", "undefined under " + quirk)
-    finally:
-        QUIRK.discard(quirk)
-
-
-def known_class(e, dest, targ, got, exp):
-    """finding id when the compiler's observation `got` (!= exp) is exactly what a recorded
-    deviation predicts for this expression."""
-    for quirk, fid in (("bool", FID_BOOL), ("i2f", FID_I2F)):
-        q = quirk_obs(e, dest, targ, quirk)
-        if q != exp and (q == got or (q[0] == got[0] == "rejected")):
-            return fid
-    return None
-
-
 def run_value_probes(ck, cp, probes, targ, what, stats):
     """`T v_i = E;` for every probe: compiler vs model (`expr`) vs reference.  Undefined
     expressions are compared model-vs-compiler only."""
@@ -760,13 +722,21 @@ def run_value_probes(ck, cp, probes, targ, what, stats):
         replay = {"kind": "wrong-fold", "target": targ, "program": prog, "expected": exp[i], "compiler": got,
                   "model": m, "context": what}
         if not ok:
-            fid = known_class(p.e, p.dest, targ, got, exp[i]) if same_mc else None
+            fid = None
+            if same_mc:
+                QUIRK.add("flit")
+                try:
+                    t, v = p.e.ev(targ)
+                    q = expect_obs(p.dest, conv_value(v, t, p.dest, targ), targ)
+                except (UB, OverflowError):
+                    q = ("rejected", None)
+                finally:
+                    QUIRK.discard("flit")
+                if q != exp[i] and (q == got or nan_equal(q, got, p.dest) or q[0] == got[0] == "rejected"):
+                    fid = FID_FLIT
             if fid:
-                ck.report(dict(replay, what={FID_BOOL: "conversion of a constant to _Bool keeps the low 8 bits "
-                                             "(and truncates a floating value first)",
-                                             FID_I2F: "int -> float constant conversion rounds twice (via double)"}[fid],
-                               theorem={FID_BOOL: "C04.cast_correct_counterexample",
-                                        FID_I2F: "C04.fold_int_to_float_model"}[fid]), fid=fid)
+                ck.report(dict(replay, what="a floating constant with suffix f keeps the double value strtod returned "
+                               "(not rounded to float)", finding=fid), fid=fid)
                 stats["known:" + fid] = stats.get("known:" + fid, 0) + 1
             else:
                 ck.violation(dict(replay, what="constant folded to a value C does not give"))
@@ -844,7 +814,7 @@ def flit(rng, kind=None):
     txt = rng.choice(FLOAT_TEXTS)
     v = float.fromhex(txt) if txt.startswith("0x") else float(txt)
     if (kind or rng.choice(["f", "d"])) == "f":
-        return Lit(txt + "f", f32(v), "float")
+        return Lit(txt + "f", f32(v), "float", raw=v)
     return Lit(txt, v, "double")
 
 
@@ -853,7 +823,7 @@ def gen_float(ck, targ):
     probes = []
     n = 150 if ck.quick else 1500
     # float arithmetic and comparisons, float ops round to float
-    probes.append(Probe(Bin("+", Lit("0.1f", f32(0.1), "float"), Lit("0.2f", f32(0.2), "float")), "float", tag="f+"))
+    probes.append(Probe(Bin("+", Lit("0.1f", f32(0.1), "float", raw=0.1), Lit("0.2f", f32(0.2), "float", raw=0.2)), "float", tag="f+"))
     probes.append(Probe(Bin("+", Lit("0.1", 0.1, "double"), Lit("0.2", 0.2, "double")), "double", tag="f+"))
     for _ in range(n):
         op = rng.choice(["+", "-", "*", "/", "<", ">", "<=", ">=", "==", "!="])
@@ -887,7 +857,7 @@ def gen_float(ck, targ):
     for txt in fvals:
         v = float.fromhex(txt) if "0x" in txt else float(txt)
         for kind in ("d", "f"):
-            src = Lit(txt, v, "double") if kind == "d" else Lit(txt + "f", f32(v), "float")
+            src = Lit(txt, v, "double") if kind == "d" else Lit(txt + "f", f32(v), "float", raw=v)
             for it in INT_NAMES:
                 e = Cast(it, src)
                 try:
@@ -899,7 +869,7 @@ def gen_float(ck, targ):
     for txt in FLOAT_TEXTS:
         v = float.fromhex(txt) if txt.startswith("0x") else float(txt)
         probes.append(Probe(Cast("float", Lit(txt, v, "double")), "float", tag="d2f"))
-        probes.append(Probe(Cast("double", Lit(txt + "f", f32(v), "float")), "double", tag="f2d"))
+        probes.append(Probe(Cast("double", Lit(txt + "f", f32(v), "float", raw=v)), "double", tag="f2d"))
     return probes
 
 
@@ -998,13 +968,8 @@ def run_oplevel(ck, targ, probes, stats):
 # ============================================================================ contexts
 def small_exprs(ck, targ, n):
     """defined integer constant expressions with their C value, for the folding contexts."""
-    probes, _ = gen_nested(ck, targ, 2 * n, 4)
-    res = []
-    for p in probes:
-        t, v = p.e.ev(targ)
-        if quirk_obs(p.e, t, targ, "bool") == expect_obs(t, v, targ):     # not touched by fold-bool-cast
-            res.append(p.e)
-    return res[:n]
+    probes, _ = gen_nested(ck, targ, n, 4)
+    return [p.e for p in probes]
 
 
 def run_contexts(ck, cp, targ, stats):
@@ -1169,16 +1134,16 @@ def run_address(ck, cp, targ, stats):
         ck.violation({"kind": "address-constant", "target": targ, "program": "char *sp = &\"hello\"[2]; char *sq = \"abc\" + 1;",
                       "compiler": out[-300:] + err[-200:], "what": "string address constant"})
         stats["violations"] += 1
-    # the swapped form  C + (long)(P + C1)  (finding fold-addr-swap-segv)
+    # the commuted form  C + (long)(P + C1)
     prog = "int arr[10]; long sw = 5 + (long)&arr[3];\n"
     rc, out, err = cp.run(prog, targ)
     ck.count(("addr", "swap"))
     d = parse_data(out).get("sw")
     if rc != 0 or not d or d["items"] != [("l", "$arr + 17")]:
-        ck.report({"kind": "address-constant-swap", "target": targ, "program": prog, "rc": rc, "stdout": out[-200:],
-                   "stderr": err[-200:], "expected": "l $arr + 17",
-                   "what": "C + (long)(P + C1): eval overwrites the (P + C1) node; the compiler crashes",
-                   "theorem": "C04.eval_canon_counterexample / addr_fold_counterexample"}, fid=FID_SWAP)
+        ck.violation({"kind": "address-constant-swap", "target": targ, "program": prog, "rc": rc, "stdout": out[-200:],
+                      "stderr": err[-200:], "expected": "l $arr + 17",
+                      "what": "C + (long)(P + C1) is not folded to P + (C1 + C)", "theorem": "C04.addr_fold_swapped"})
+        stats["violations"] += 1
 
 
 # ============================================================================ literals
@@ -1254,21 +1219,19 @@ def run_literals(ck, cp, targ, stats):
                           "theorem": "correspondence Model/Eval.parseNumber ~ expr.c:primaryexpr"}, nofail=True)
             stats["violations"] += 1
     # malformed / overflowing literals
-    for txt, fid in [("18446744073709551616u", FID_LITOVF), ("0x10000000000000000", FID_LITOVF),
-                     ("99999999999999999999999ull", FID_LITOVF), ("18446744073709551616", None),
+    for txt, fid in [("18446744073709551616u", None), ("0x10000000000000000", None),
+                     ("99999999999999999999999ull", None), ("18446744073709551616", None),
+                     ("0b10000000000000000000000000000000000000000000000000000000000000000", None),
+                     ("02000000000000000000000", None),
                      ("9223372036854775808", None), ("08", None), ("0x", None), ("0b2", None), ("1uu", None), ("1lul", None),
                      ("0b", None), ("1llll", None), ("0xg", None), ("1_000", None)]:
         rc, out, err = cp.run("unsigned long long x = %s;\n" % txt, targ)
         ck.count(("lit-bad", txt))
         if rc != 1 or "error" not in err:
-            rep = {"kind": "literal-accepted", "target": targ, "program": "unsigned long long x = %s;" % txt, "rc": rc,
-                   "stdout": out[-120:], "what": "integer constant without a type (value >= 2^64 or malformed) accepted",
-                   "theorem": "C04.literal_overflow_saturates"}
-            if fid and rc == 0:
-                ck.report(rep, fid=fid)
-            else:
-                ck.violation(rep)
-                stats["violations"] += 1
+            ck.violation({"kind": "literal-accepted", "target": targ, "program": "unsigned long long x = %s;" % txt,
+                          "rc": rc, "stdout": out[-120:], "what": "integer constant without a type (value >= 2^64 "
+                          "or malformed) accepted", "theorem": "C04.literal_overflow_rejected"})
+            stats["violations"] += 1
 
 
 # ============================================================================ run-time agreement (K-D)
@@ -1337,12 +1300,8 @@ def run_runtime(ck, cp, targ, stats):
             continue
         rep = {"kind": "fold-vs-runtime", "target": targ, "program": PRELUDE + ln, "folded": folded, "runtime": rt,
                "expected": want[k], "what": "compile-time value differs from the value the emitted code computes"}
-        if folded != want[k] and rt == want[k] and \
-                known_class(info[k], "long long", targ, ("int", folded), ("int", want[k])) == FID_BOOL:
-            ck.report(dict(rep, theorem="C04.cast_correct_counterexample"), fid=FID_BOOL)
-        else:
-            ck.violation(rep)
-            stats["violations"] += 1
+        ck.violation(rep)
+        stats["violations"] += 1
 
 
 # ============================================================================ malformed / undefined stream
@@ -1377,14 +1336,18 @@ def run_malformed(ck, cp, targ, stats):
                           "stderr": err[-200:], "what": "|| / && / ?: with an unevaluated undefined operand",
                           "theorem": "C04.lor_land_short_circuit / lor_land_zero_one / cond_shortcut_correct"})
             stats["violations"] += 1
-    # floating condition of ?: (finding fold-cond-float-unfolded)
-    p = "int x = 0.5 ? 1 : 2;"
-    rc, out, err = cp.run(p + "\n", targ)
-    d = parse_data(out).get("x")
-    if rc != 0 or not d or item_value(d, "int") != ("int", 1):
-        ck.report({"kind": "cond-float", "target": targ, "program": p, "rc": rc, "stderr": err[-200:],
-                   "what": "?: with a floating constant condition is not folded (valid constant expression rejected)",
-                   "theorem": "C04.cond_float_condition_unfolded"}, fid=FID_CONDF)
+    # floating condition of ?:
+    for p, v in [("int x = 0.5 ? 1 : 2;", 1), ("int x = 0.0 ? 1 : 2;", 2), ("int x = -0.0 ? 1 : 2;", 2),
+                 ("int x = 1e-320 ? 1/0 + 1 : 2;", None), ("int x = 0.0f ? 1/0 : 7;", 7)]:
+        rc, out, err = cp.run(p + "\n", targ)
+        ck.count(("cond-float", p))
+        d = parse_data(out).get("x")
+        good = (rc == 1 and "error" in err) if v is None else (rc == 0 and d and item_value(d, "int") == ("int", v))
+        if not good:
+            ck.violation({"kind": "cond-float", "target": targ, "program": p, "rc": rc, "stderr": err[-200:],
+                          "expected": v, "what": "?: with a floating constant condition",
+                          "theorem": "C04.cond_float_condition"})
+            stats["violations"] += 1
 
 
 # ============================================================================ spec validation against gcc
@@ -1524,8 +1487,9 @@ META = {
              "operands, all folding contexts, address constants, literals, floats, and by executing the emitted IL "
              "for the same operations on volatile operands."),
     "design_ref": "DESIGN.md section 4, C04",
-    "note": ("Floating point is uninterpreted in the theorems (same operation on the same operands); deviations found: "
-             "conversion to _Bool (cast_correct_counterexample), C + (long)(P + C1) (eval_canon_counterexample), "
-             "int->float double rounding, floating ?: condition unfolded, literal >= 2^64 saturates."),
+    "note": ("Floating point is uninterpreted in the theorems (same operation on the same operands).  Five defects "
+             "found while stating the theorems were repaired in /repo (conversion to _Bool 7c8b86a, C + (long)(P + C1) "
+             "536afbc, int->float double rounding 0457315, floating ?: condition b66d549, literal >= 2^64 23c06f0); "
+             "their witnesses stay in the probe sets."),
     "technique": "Lean 4 proof (per-width case analysis + omega, induction over expressions) + three-way differential correspondence + executed IL",
 }
